@@ -51,6 +51,9 @@ RULES = [
     ('R3',  r"\(\s*('(?:\\u\{[0-9a-fA-F]+\}|\\.|[^'\\])')\s*\.\.\s*('(?:\\u\{[0-9a-fA-F]+\}|\\.|[^'\\])')\s*\)\s*\.contains\(\s*&(\w+)\s*\)", r"vx_range_contains(\1, \2, false, &\3)", 'Range<char>::contains'),
     ('R8',  r"\b(\w+)\.escape_unicode\(\)\.to_string\(\)", r"vx_escape_unicode(\1)", 'char::escape_unicode rendering (uninterpreted)'),
     ('R5',  r"\b(\w+)\.chars\(\)\.count\(\)", r"vx_char_count(&\1)", 'str::chars().count() = number of scalar values'),
+    ('R12', r"\b(\w+)\.contains\(('(?:\\u\{[0-9a-fA-F]+\}|\\.|[^'\\])')\)", r"vx_str_contains_char(\1, \2)", 'str::contains(char)'),
+    ('R12', r"\b(\w+)\.ends_with\(('(?:\\u\{[0-9a-fA-F]+\}|\\.|[^'\\])')\)", r"vx_str_ends_with_char(\1, \2)", 'str::ends_with(char)'),
+    ('R12', r"\b(\w+)\.starts_with\(('(?:\\u\{[0-9a-fA-F]+\}|\\.|[^'\\])')\)", r"vx_str_starts_with_char(\1, \2)", 'str::starts_with(char)'),
     ('R6',  r"\bpanic!\s*\((?:[^()]|\([^()]*\))*\)", r"vx_unreachable_panic()", 'panic! is a call with `requires false`'),
 ]
 
